@@ -19,7 +19,7 @@ namespace {
 
 enum HK { H_SUB_INV = 1, H_SUB_RET, H_BODY_START, H_BODY_END, H_CB, H_STATUS_INV, H_STATUS_RET, H_CANCEL_INV, H_CANCEL_RET,
           H_CLEANUP_INV, H_CLEANUP_RET, H_SNAPSHOT, H_INIT };
-enum Cell { C_OUTSTANDING = 0, C_IN_CLEANUP = 1, C_IN_LOOP = 2 };
+enum Cell { C_OUTSTANDING = 0, C_IN_CLEANUP = 1, C_IN_LOOP = 2, C_EPOCH = 3 };
 
 // ------------------------------------------------------------------ generation
 void generate(sim::Rng &r, uint64_t seed, const std::string &tier, sim::Plan &p) {
@@ -55,7 +55,8 @@ void generate(sim::Rng &r, uint64_t seed, const std::string &tier, sim::Plan &p)
     long delay = r.chance(600) ? 0 : r.range(1, 3);
     if ((x < 50 || ntasks == 0) && ntasks < maxtasks) {
       op.kind = "exec";
-      op.a = {r.range(-2, 2), r.range(0, 3), r.chance(300) ? r.range(1, 5) : 0, r.chance(600) ? 1 : 0, delay};
+      // [prio, yields, sleep_ms, has_cb, delay, nested submissions made by the body itself (from the worker thread), their prio]
+      op.a = {r.range(-2, 2), r.range(0, 3), r.chance(300) ? r.range(1, 5) : 0, r.chance(600) ? 1 : 0, delay, r.chance(250) ? r.range(1, 2) : 0, r.range(-2, 2)};
       ++ntasks;
     } else if (x < 65) { op.kind = "status"; op.a = {(long)r.below(64), delay}; }
     else if (x < 80) { op.kind = "cancel"; op.a = {(long)r.below(64), delay}; }
@@ -90,7 +91,8 @@ struct Ctx {
   long kind = 0;
   long cur_max = 0;
   int epoch = 0;             // bumped by every cleanup
-  std::vector<TaskRec> tasks;
+  std::vector<TaskRec> tasks;      // parents first (in submission order), then two child slots per parent
+  int nparents_total = 0, next_parent = 0;
   std::vector<TimerEvent *> timers;
   int idle_polls = 0;
   bool stopped_once = false;
@@ -113,6 +115,7 @@ struct Ctx {
     sim::hist(H_CLEANUP_RET, epoch);
     sim::cell_set(C_OUTSTANDING, 0);
     ++epoch;
+    sim::cell_set(C_EPOCH, epoch);
   }
 
   void finale() {
@@ -145,18 +148,32 @@ struct Ctx {
     std::function<void()> next = [this, i] { step(i + 1); };
     if (op.kind == "exec") {
       delay = op.arg(4);
-      int id = (int)tasks.size();
+      int id = next_parent++;
       TaskRec tr; tr.prio = std::max(-2L, std::min(2L, op.arg(0))); tr.has_cb = op.arg(3) != 0; tr.epoch = epoch;
       long yields = op.arg(1), sleep_ms = op.arg(2);
-      auto body = [id, yields, sleep_ms] {
+      long nested = std::max(0L, std::min(2L, op.arg(5))), child_prio = std::max(-2L, std::min(2L, op.arg(6)));
+      int child_base = nparents_total + 2 * id;
+      ThreadPool *pl = pool; WorkThread *w = wt; long knd = kind;
+      auto body = [id, yields, sleep_ms, nested, child_prio, child_base, pl, w, knd] {
         sim::hist(H_BODY_START, id);
+        // submissions from the worker thread, concurrent with whatever the loop thread submits
+        for (long c = 0; c < nested; ++c) {
+          int cid = child_base + (int)c;
+          auto child = [cid] { sim::hist(H_BODY_START, cid); sim::yield(); sim::hist(H_BODY_END, cid); sim::cell_add(C_OUTSTANDING, -1); };
+          sim::hist(H_SUB_INV, cid, child_prio, 0, sim::cell_get(C_EPOCH));
+          sim::cell_add(C_OUTSTANDING, 1);
+          cabinet::Token t = knd == 0 ? pl->execute(child, (int)child_prio) : w->execute(child);
+          if (t.isNull()) sim::cell_add(C_OUTSTANDING, -1);
+          sim::hist(H_SUB_RET, cid, !t.isNull());
+          sim::probe("nested_submissions");
+        }
         for (long k = 0; k < yields; ++k) sim::yield();
         if (sleep_ms > 0) sim::sleep_ns(sleep_ms * 1000000);
         sim::hist(H_BODY_END, id);
         sim::cell_add(C_OUTSTANDING, -1);
       };
       auto cb = [id] { sim::hist(H_CB, id); };
-      sim::hist(H_SUB_INV, id, tr.prio, tr.has_cb);
+      sim::hist(H_SUB_INV, id, tr.prio, tr.has_cb, epoch);
       sim::cell_add(C_OUTSTANDING, 1);     // before the call: the body may finish before execute() returns
       cabinet::Token tok;
       if (kind == 0) {
@@ -170,12 +187,12 @@ struct Ctx {
       tr.token = tok;
       if (!tr.accepted) sim::cell_add(C_OUTSTANDING, -1);
       sim::hist(H_SUB_RET, id, tr.accepted);
-      tasks.push_back(tr);
+      tasks[(size_t)id] = tr;
       sim::relevant();
     } else if (op.kind == "status" || op.kind == "cancel") {
       delay = op.arg(1);
-      if (!tasks.empty()) {
-        int id = (int)(op.arg(0) % (long)tasks.size());
+      if (next_parent > 0) {
+        int id = (int)(op.arg(0) % (long)next_parent);
         TaskRec &tr = tasks[id];
         if (tr.accepted) {
           if (op.kind == "status") {
@@ -242,16 +259,20 @@ void oracle(const Ctx &ctx, long kind) {
   uint64_t pending_inv = 0;
   for (const sim::HEvent &e : h) {
     switch (e.kind) {
-      case H_SUB_INV: if ((size_t)e.a < T.size()) { T[e.a].sub_inv = e.seq; T[e.a].prio = e.b; T[e.a].has_cb = e.c; } break;
+      case H_SUB_INV: if ((size_t)e.a < T.size()) { T[e.a].sub_inv = e.seq; T[e.a].prio = e.b; T[e.a].has_cb = e.c; T[e.a].epoch = (int)e.d; } break;
       case H_SUB_RET: if ((size_t)e.a < T.size()) { T[e.a].sub_ret = e.seq; T[e.a].accepted = e.b; } break;
       case H_CLEANUP_INV: pending_inv = e.seq; break;
       case H_CLEANUP_RET: cleanups.push_back({pending_inv, e.seq}); pending_inv = 0; break;
       default: break;
     }
   }
-  for (size_t i = 0; i < T.size(); ++i) T[i].epoch = ctx.tasks[i].epoch;
   // pass 2: events in order
+  long active = 0, cur_epoch_max = kind == 1 ? 1 : std::max(1L, std::min(4L, ctx.plan->get("max", 1)));
   for (const sim::HEvent &e : h) {
+    if (e.kind == H_INIT && e.c) cur_epoch_max = e.b;
+    if (e.kind == H_BODY_END) --active;
+    if (e.kind == H_BODY_START && ++active > cur_epoch_max)
+      sim::violation("C05/threads-exceed-max", S("%ld task bodies are running at the same time, the configured maximum of workers is %ld", active, cur_epoch_max));
     if (e.kind == H_BODY_START) {
       TInfo &t = T[e.a];
       if (++t.starts > 1) sim::violation("C05/task-executed-twice", S("task body ran %d times", t.starts));
@@ -338,7 +359,10 @@ void oracle(const Ctx &ctx, long kind) {
         if (y.start && y.start < x.start) continue;                    // already picked
         if (y.cancel_ok && y.cancel_ok_inv < x.start) continue;        // a successful cancel was in progress or done when x started
         if (!cleanups.empty() && cleanups[0].first && cleanups[0].first < x.start) continue;
-        bool y_better = kind == 1 ? (y.sub_inv < x.sub_inv) : (y.prio < x.prio || (y.prio == x.prio && y.sub_inv < x.sub_inv));
+        // first-in-first-out is decided by the order in which the submissions took effect: with submissions from several threads
+        // only a submission that had returned before the other one was invoked is certainly the earlier one
+        bool y_first = y.sub_ret < x.sub_inv;
+        bool y_better = kind == 1 ? y_first : (y.prio < x.prio || (y.prio == x.prio && y_first));
         if (y_better) {
           sim::violation("C05/pick-order", S("single worker picked a task (prio %ld) while a task that must be served first (prio %ld, submitted %s) was certainly waiting",
                                              x.prio, y.prio, y.sub_inv < x.sub_inv ? "earlier" : "later"));
@@ -365,6 +389,8 @@ void execute(const sim::Plan &plan) {
   });
   ctx = Ctx();
   ctx.plan = &plan;
+  for (const sim::Op &op : plan.ops) if (op.kind == "exec") ++ctx.nparents_total;
+  ctx.tasks.assign((size_t)ctx.nparents_total * 3, TaskRec());
   ctx.kind = plan.get("kind");
   ctx.loop = Loop::New(plan.get("backend") ? "select" : "epoll");
   long mx = std::max(1L, std::min(4L, plan.get("max", 1)));
